@@ -28,7 +28,8 @@ def tlc_cases(ctx: Ctx, maxcx: int, timeout=1500):
             f.write(f"INVARIANT {inv}\n")
         if maxcx == 1:
             f.write("INVARIANT ExportCase\n")
-    r = must_ok(run_tlc("Negotiation", cfg, workdir=ctx.work, workers=1 if maxcx == 1 else 16, timeout=timeout))
+    # (two contexts: 1 314 240 cases - above TLC's default bound on the size of an enumerated set)
+    r = must_ok(run_tlc("Negotiation", cfg, workdir=ctx.work, workers=1 if maxcx == 1 else 16, timeout=timeout, extra=None if maxcx == 1 else ["-maxSetSize", "3000000"]))
     ctx.add_tlc(r)
     if r.violated:
         ctx.violation({"where": "model", "invariant": r.violated}, f"Negotiation.tla violates {r.violated}", r.trace)
